@@ -55,7 +55,9 @@ PATHS = ['/ok', '/rnd', '/empty', '/stream', '/red', '/ctx', '/x404', '/r409', '
          '/size/131072', '/size/262144', '/size/1048576',
          # query parameters that belong to some middleware but do NOT trigger it
          '/ok?_prof_sort=tottime', '/ok?_prof_sort=', '/x404?_prof_sort=nfl', '/red?_prof=', '/ok?unread_q=1&format=zzz',
-         '/ctx?_prof_sort=%00', '/ok?callback=x', '/vary', '/vary2', '/vary']
+         '/ctx?_prof_sort=%00', '/ok?callback=x', '/vary', '/vary2', '/vary',
+         # bodies the application coded itself; a read-only render context
+         '/pre/deflate', '/pre/deflate', '/pre/gzip', '/pre/br', '/roctx', '/roctx']
 # Cookie headers a client may send although this server never set them (index 0 = the jar as it is)
 COOKIES = [None, 'clastic_cookie=garbage', 'clastic_cookie=AAAA?k=InYi', 'clastic_cookie="\xc3\xa9?\xc3\xa9=1"', 'clastic_cookie=a?b',
            'clastic_cookie=aAAAA?k=InYi', 'clastic_cookie=AAAA?\xc3\xa9k=InYi&x=1', 'other=1; clastic_cookie=%%%', 'clastic_cookie=',
@@ -126,12 +128,32 @@ def routes():
     def vary2():
         return Response(TEXT, mimetype='text/html', headers={'Vary': 'Origin, Accept-Language'})
 
+    def pre_deflate():
+        import zlib
+        # a pre-compressed asset with a weak setting: the coded bytes would still shrink under another compressor
+        return Response(zlib.compress(BIG + RND + TEXT * 3, 1), mimetype='text/plain', headers={'Content-Encoding': 'deflate'})
+
+    def pre_gzip():
+        return Response(gzip.compress(TEXT * 4, 1), mimetype='text/html', headers={'Content-Encoding': 'gzip'})
+
+    def pre_other():
+        return Response(b'\x1b' + BIG[:5000], mimetype='text/plain', headers={'Content-Encoding': 'br'})
+
+    def ro_ctx():
+        import types
+        # a read-only mapping as render context (it already carries every name a configured processor would add)
+        return types.MappingProxyType({'k': 'v' * 300, 'n': [1, 2, 3], 'zero': 0, 'empty': '', 'flag': False, 'nothing': None, 'lst': []})
+
+    def render_mapping(context):
+        return Response(repr(sorted((k, repr(v)) for k, v in context.items())), mimetype='text/plain')
+
     def size(n):
         # n compressible bytes: sizes sit on powers of two and their neighbours (buffer boundaries)
         return Response((b'0123456789abcdef' * (n // 16 + 1))[:n], mimetype='text/plain')
     return [('/ok', ok), ('/rnd', rndb), ('/empty', empty), ('/small', small), ('/text', text), ('/stream', stream), ('/red', red),
             ('/ctx', ctx, render_basic), ('/x404', x404), ('/r409', r409), ('/r404', r404), ('/nb', nb), ('/nbret', nbret),
-            ('/r400nb', r400nb), ('/x503', x503), ('/boom', boom), ('/boomkey', boomkey), GET('/g', ok), POST('/form', form), ('/b/', ok), ('/size/<n:int>', size), ('/vary', vary), ('/vary2', vary2)]
+            ('/r400nb', r400nb), ('/x503', x503), ('/boom', boom), ('/boomkey', boomkey), GET('/g', ok), POST('/form', form), ('/pre/deflate', pre_deflate), ('/pre/gzip', pre_gzip), ('/pre/br', pre_other),
+            ('/roctx', ro_ctx, render_mapping), ('/b/', ok), ('/size/<n:int>', size), ('/vary', vary), ('/vary2', vary2)]
 
 
 class OsProxy(object):
@@ -153,6 +175,23 @@ class RandProxy(object):
     def __getattr__(self, k):
         import random
         return getattr(random, k)
+
+
+def codings(header):
+    return [c.strip().lower() for c in (header or '').split(',') if c.strip()]
+
+
+def decode_all(body, cs):
+    """Undo the content codings a client can undo (last applied first) -> (bytes, codings left over)."""
+    import zlib
+    cs = list(cs)
+    while cs and cs[-1] in ('gzip', 'x-gzip', 'deflate', 'identity'):
+        c = cs.pop()
+        if c in ('gzip', 'x-gzip'):
+            body = gzip.decompress(body)
+        elif c == 'deflate':
+            body = zlib.decompress(body)
+    return body, cs
 
 
 def normalise(status, body):
@@ -292,28 +331,42 @@ class C15(Check):
                 enc = e2.header('Content-Encoding')
                 sent = e2.body
                 dec = sent
-                if enc == 'gzip':
+                c1, c2 = codings(e1.header('Content-Encoding')), codings(enc)
+                bare = e1.body
+                if c1:
+                    # the APPLICATION coded this body itself (pre-compressed assets): "decoded body" = all codings undone
+                    res.probe('application-sets-own-content-encoding')
+                added = list(c2)
+                for c in c1:
+                    if c in added:
+                        added.remove(c)
+                if [c for c in added if c not in ('gzip', 'identity')] or len(c2) < len(c1):
+                    res.violate(K + 'unexpected-content-encoding', ctx + ' -> %r (the bare application sends %r)' % (enc, e1.header('Content-Encoding')), step)
+                    return False
+                if 'gzip' in added:
                     res.probe('gzip-compressed')
                     if not accepts:
                         res.violate(K + 'gzip/sent-to-client-not-accepting', ctx + ' -> Content-Encoding: gzip', step)
                         return False
-                    if op['method'] != 'HEAD':
-                        try:
-                            dec = gzip.decompress(sent)
-                        except Exception as e:
-                            res.violate(K + 'gzip/not-decodable@%s' % kind, ctx + ' -> %r' % (e,), step)
-                            return False
                     if 'accept-encoding' not in (e2.header('Vary') or '').lower():
                         res.violate(K + 'gzip/no-vary', ctx + ' -> Vary: %r' % e2.header('Vary'), step)
                         return False
-                elif enc:
-                    res.violate(K + 'unexpected-content-encoding', ctx + ' -> %r' % enc, step)
-                    return False
+                if op['method'] != 'HEAD':
+                    try:
+                        dec, left2 = decode_all(sent, c2)
+                    except Exception as e:
+                        res.violate(K + 'gzip/not-decodable@%s' % kind, ctx + ' -> Content-Encoding %r: %r' % (enc, e), step)
+                        return False
+                    bare, left1 = decode_all(e1.body, c1)
+                    if left1 != left2:
+                        res.violate(K + 'unexpected-content-encoding', ctx + ' -> %r (the bare application sends %r)' % (enc, e1.header('Content-Encoding')), step)
+                        return False
+                enc = 'gzip' if 'gzip' in added else None
                 if 'gzip' in stack_names and not accepts:
                     res.probe('gzip-not-accepted-identity')
                 if 'gzip' in stack_names and op['method'] == 'HEAD':
                     res.probe('head-through-gzip')
-                if normalise(e1.code, dec) != normalise(e1.code, e1.body):
+                if normalise(e1.code, dec) != normalise(e1.code, bare):
                     res.violate(K + 'body-changed@%s%s' % (kind, ':gzip' if enc else ''),
                                 ctx + ' -> decoded body differs: bare %d bytes %r..., with middlewares %d bytes %r...'
                                 % (len(e1.body), e1.body[:60], len(dec), dec[:60]), step)
